@@ -4,6 +4,7 @@
 package c09
 
 import (
+	"os"
 	"context"
 	"crypto/sha256"
 	"encoding/json"
@@ -40,7 +41,12 @@ type Step struct {
 	Dup   bool   `json:"dup,omitempty"`   // events: delivered twice
 	Secs  int    `json:"secs,omitempty"`  // sleep
 	BlkOff int   `json:"blk_off,omitempty"` // logs: the logs are (re)delivered on a check block this much higher
+	OnlyNew bool `json:"only_new,omitempty"` // events: only for reports that had no event yet
 	Late  bool   `json:"late,omitempty"`  // round: reports withheld from nodes earlier (Skip) reach them after this round's observations were built
+	// cond: Logs = numbers of the conditional upkeeps that are active AND eligible on Nodes from now on (replaces the previous set)
+	// expect: liveness obligation - each unit of work in Logs (Kind cond | log) is agreed by one of the next Conf rounds.  The
+	// generator emits it only where the property's premise holds by construction: >= 2f+1 honest nodes up and members of each of
+	// those rounds, the work eligible on all of them, not in flight on any of them
 }
 
 type Scenario struct {
@@ -95,6 +101,14 @@ func rkey(r common.CheckResult) string {
 
 func logPayload(n int) common.UpkeepPayload { return logPayloadAt(n, 0) }
 
+func condID(n int) common.UpkeepIdentifier { return UpkeepID(0, 700+n) }
+
+func condPayload(n int, blk uint64) common.UpkeepPayload {
+	id := condID(n)
+	tr := common.NewTrigger(common.BlockNumber(blk), Hash32("cb", int(blk)))
+	return common.UpkeepPayload{UpkeepID: id, Trigger: tr, WorkID: WG(id, tr)}
+}
+
 func logPayloadAt(n, off int) common.UpkeepPayload {
 	id := UpkeepID(1, 300+n%5)
 	tr := common.NewLogTrigger(common.BlockNumber(1000+n%3+off), Hash32("cb", 1000+n%3+off), &common.LogTriggerExtension{
@@ -114,6 +128,11 @@ func newHonest(t *testing.T, sc *Scenario, id int) *hnode {
 
 // ---------------------------------------------------------------- the run
 
+type liveOb struct {
+	wid      string
+	from, to int // round indices (0-based, inclusive)
+}
+
 type roundLog struct {
 	obs      [][2]any // (byz bool, rows []int) for VALID observations
 	agreed   []int
@@ -129,6 +148,7 @@ type runLog struct {
 	accepts   [][2]any // (node, rows)
 	transmit  [][2]any // (node, [][]int)
 	checked   map[int]map[int]bool
+	live      []liveOb
 }
 
 func (l *runLog) row(r common.CheckResult) int {
@@ -209,6 +229,26 @@ func runScenario(t *testing.T, sc *Scenario) {
 			}
 		}
 	}
+	// the simulated chain: one block per round / event batch; every honest node sees the same last 5 blocks
+	blk := uint64(1100)
+	condOn := map[int][]int{}
+	publish := func() {
+		var hist common.BlockHistory
+		for i := uint64(0); i < 5; i++ {
+			hist = append(hist, common.BlockKey{Number: common.BlockNumber(blk - i), Hash: Hash32("cb", int(blk-i))})
+		}
+		for i, h := range nodes {
+			h.nd.Blocks.Publish(hist)
+			var ps []common.UpkeepPayload
+			for _, c := range condOn[i] {
+				ps = append(ps, condPayload(c, blk))
+			}
+			h.nd.Getter.Set(ps)
+		}
+	}
+	evented := map[int]bool{}
+	released := map[int]bool{} // report index -> a confirmed event for it was delivered to the nodes
+	logSeen := map[int]map[int]bool{}
 	withheld := map[int][]producedReport{}
 	acceptAt := func(i int, pr producedReport) {
 		h, ok := nodes[i]
@@ -227,7 +267,7 @@ func runScenario(t *testing.T, sc *Scenario) {
 			}
 		}
 	}
-	for _, st := range sc.Steps {
+	for si, st := range sc.Steps {
 		switch st.Op {
 		case "logs":
 			var ps []common.UpkeepPayload
@@ -237,6 +277,12 @@ func runScenario(t *testing.T, sc *Scenario) {
 			for _, i := range st.Nodes {
 				if h, ok := nodes[i]; ok {
 					h.nd.Logs.Push(ps...)
+					if logSeen[i] == nil {
+						logSeen[i] = map[int]bool{}
+					}
+					for _, n := range st.Logs {
+						logSeen[i][n] = st.BlkOff == 0
+					}
 				}
 			}
 			time.Sleep(2 * time.Second)
@@ -244,6 +290,67 @@ func runScenario(t *testing.T, sc *Scenario) {
 		case "sleep":
 			time.Sleep(time.Duration(st.Secs) * time.Second)
 			synctest.Wait()
+		case "cond":
+			for _, i := range st.Nodes {
+				condOn[i] = append([]int(nil), st.Logs...)
+			}
+			publish()
+			synctest.Wait()
+		case "expect":
+			// the obligation is recorded only where the property's premise holds: checked here, so that a shrunk or
+			// hand-edited scenario cannot demand more than the property states
+			honestUp := len(nodes)
+			ok := honestUp >= 2*sc.F+1
+			rounds := 0
+			for _, nx := range sc.Steps[si+1:] {
+				if rounds >= st.Conf {
+					break
+				}
+				switch nx.Op {
+				case "round":
+					in := map[int]bool{}
+					for _, m := range nx.Nodes {
+						in[m] = true
+					}
+					for i := range nodes {
+						ok = ok && in[i]
+					}
+					rounds++
+				case "sleep":
+				default:
+					ok = false
+				}
+			}
+			ok = ok && rounds >= st.Conf
+			for _, n := range st.Logs {
+				w := logPayload(n).WorkID
+				okw := ok
+				if st.Kind == "cond" {
+					w = condPayload(n, blk).WorkID
+					for i := range nodes {
+						has := false
+						for _, c := range condOn[i] {
+							has = has || c == n
+						}
+						okw = okw && has
+					}
+				} else {
+					for i := range nodes {
+						okw = okw && logSeen[i][n]
+					}
+				}
+				// in flight: some report with this work was produced and no confirmed event for it has been delivered
+				for pi, pr := range reports {
+					for _, r := range pr.res {
+						if r.WorkID == w && !released[pi] {
+							okw = false
+						}
+					}
+				}
+				if okw {
+					lg.live = append(lg.live, liveOb{wid: w, from: len(lg.rounds), to: len(lg.rounds) + st.Conf - 1})
+				}
+			}
 		case "restart":
 			for _, i := range st.Nodes {
 				if h, ok := nodes[i]; ok {
@@ -252,6 +359,7 @@ func runScenario(t *testing.T, sc *Scenario) {
 					synctest.Wait()
 					nh := newHonest(t, sc, i)
 					nh.checked = h.checked // the pipeline log is the harness' ghost, it survives
+					delete(logSeen, i)
 					nodes[i] = nh
 					for _, set := range acceptedBy {
 						delete(set, i)
@@ -261,11 +369,19 @@ func runScenario(t *testing.T, sc *Scenario) {
 			time.Sleep(time.Second)
 			synctest.Wait()
 		case "events":
-			for _, pr := range reports {
+			blk++
+			for pi, pr := range reports {
+				if st.OnlyNew && evented[pi] {
+					continue
+				}
+				evented[pi] = true
+				if st.Conf >= 1 {
+					released[pi] = true
+				}
 				for _, r := range pr.res {
 					ty := map[string]common.TransmitEventType{"perform": common.PerformEvent, "stale": common.StaleReportEvent,
 						"reorg": common.ReorgReportEvent, "funds": common.InsufficientFundsReportEvent}[st.Kind]
-					ev := common.TransmitEvent{Type: ty, TransmitBlock: common.BlockNumber(2000 + pr.seq), Confirmations: int64(st.Conf),
+					ev := common.TransmitEvent{Type: ty, TransmitBlock: common.BlockNumber(blk), Confirmations: int64(st.Conf),
 						TransactionHash: Hash32("txn", int(pr.seq)*100+len(events)), UpkeepID: r.UpkeepID, WorkID: r.WorkID, CheckBlock: r.Trigger.BlockNumber}
 					events = append(events, ev)
 					if st.Dup {
@@ -283,6 +399,9 @@ func runScenario(t *testing.T, sc *Scenario) {
 		case "round":
 			seq++
 			sc.Rounds++
+			blk++
+			publish()
+			synctest.Wait()
 			outctx := ocr3types.OutcomeContext{SeqNr: seq, PreviousOutcome: prev}
 			var aobs []ocr2plustypes.AttributedObservation
 			var thisHonest [][]byte
@@ -297,6 +416,9 @@ func runScenario(t *testing.T, sc *Scenario) {
 					var o ocr2keepers.AutomationObservation
 					_ = json.Unmarshal(ob, &o)
 					lg.honestObs = append(lg.honestObs, [2]any{i, lg.rowsOf(o.Performable)})
+					if os.Getenv("VERIF_DEBUG") != "" {
+						t.Logf("round %d node %d: performables %d proposals %d history %d", seq, i, len(o.Performable), len(o.UpkeepProposals), len(o.BlockHistory))
+					}
 					aobs = append(aobs, ocr2plustypes.AttributedObservation{Observation: ob, Observer: commontypes.OracleID(i)})
 					thisHonest = append(thisHonest, ob)
 					byNode[i] = ob
@@ -374,6 +496,12 @@ func runScenario(t *testing.T, sc *Scenario) {
 			var oc ocr2keepers.AutomationOutcome
 			_ = json.Unmarshal(out, &oc)
 			rl := roundLog{agreed: lg.rowsOf(oc.AgreedPerformables)}
+			if os.Getenv("VERIF_DEBUG") != "" {
+				t.Logf("round %d outcome: agreed %d surfaced %v", seq, len(oc.AgreedPerformables), len(oc.SurfacedProposals))
+				if len(oc.SurfacedProposals) > 0 {
+					t.Logf("   newest surfaced: %d", len(oc.SurfacedProposals[0]))
+				}
+			}
 			for w, set := range acceptedBy {
 				all := len(set) > 0
 				for i := range nodes {
@@ -421,7 +549,7 @@ func runScenario(t *testing.T, sc *Scenario) {
 			}
 			lg.rounds = append(lg.rounds, rl)
 			snapshot()
-			time.Sleep(time.Second)
+			time.Sleep(3 * time.Second) // round period: one sampling tick, three final-flow ticks
 			synctest.Wait()
 		}
 	}
@@ -472,6 +600,9 @@ func (l *runLog) term(sc *Scenario) string {
 	tr := CoqList(l.transmit, func(p [2]any) string {
 		return fmt.Sprintf("(%s, %s)", CoqNat(p[0].(int)), CoqList(p[1].([][]int), natList))
 	})
-	return fmt.Sprintf("mkNCase %s %s [%s] [%s] %s %s %s", CoqNat(sc.F), wids, strings.Join(ck, "; "), strings.Join(rds, ";\n     "),
-		CoqList(l.honestObs, pair), CoqList(l.accepts, pair), tr)
+	live := CoqList(l.live, func(o liveOb) string {
+		return fmt.Sprintf("(%d, (%s, %s))", wid.ID(o.wid), CoqNat(o.from), CoqNat(o.to))
+	})
+	return fmt.Sprintf("mkNCase %s %s [%s] [%s] %s %s %s %s", CoqNat(sc.F), wids, strings.Join(ck, "; "), strings.Join(rds, ";\n     "),
+		CoqList(l.honestObs, pair), CoqList(l.accepts, pair), tr, live)
 }
